@@ -302,8 +302,14 @@ pub enum ConfigFilePersistedDocumentsHashAlgorithm {
 
 fn create_options(options: ConfigFileOptions) -> CompilerConfigOptions {
     if let Some(header) = options.generated_file_header.as_ref() {
-        let line_count = header.lines().count();
-        if line_count > 1 {
+        // The header is emitted as a single-line JavaScript comment, which is ended by any
+        // JavaScript line terminator (not only by a line feed). One trailing line break is
+        // tolerated.
+        let without_trailing_line_break = header
+            .strip_suffix("\r\n")
+            .or_else(|| header.strip_suffix(['\n', '\r']))
+            .unwrap_or(header);
+        if without_trailing_line_break.contains(['\n', '\r', '\u{2028}', '\u{2029}']) {
             panic!("config.options.generated_file_header should not be a multi-line string.")
         }
     }
